@@ -41,14 +41,15 @@ ASSUMPTIONS = ['Python\'s own codecs are the ground truth for "decode with encod
 SHARDS = {'quick': 1, 'thorough': 16}
 
 CANON = ['utf-8', 'utf-16', 'utf-32', 'latin-1', 'ascii', 'cp1252', 'shift_jis', 'euc_jp',
-         'koi8-r', 'cp437']
+         'koi8-r', 'cp437', 'iso2022_jp', 'utf-7']
 ALIASES = {'utf-8': ['utf8', 'utf_8', 'U8', 'UTF8'], 'utf-16': ['utf16', 'UTF_16', 'u16'],
            'utf-32': ['utf32', 'U32', 'utf_32'],
            'latin-1': ['latin1', 'iso-8859-1', 'L1', 'ISO8859-1', 'latin_1'],
            'ascii': ['us-ascii', '646'], 'cp1252': ['windows-1252', '1252'],
            'shift_jis': ['sjis', 'shiftjis', 's_jis', 'Shift-JIS'],
            'euc_jp': ['eucjp', 'ujis', 'EUC-JP'], 'koi8-r': ['koi8_r', 'KOI8_R'],
-           'cp437': ['ibm437', '437', 'IBM437']}
+           'cp437': ['ibm437', '437', 'IBM437'], 'iso2022_jp': ['iso-2022-jp', 'csiso2022jp', 'ISO2022JP'],
+           'utf-7': ['utf7', 'U7', 'UTF_7']}
 POLICIES = ['strict', 'ignore', 'replace']
 BOM_CODECS = ('utf-16', 'utf-32')
 SLUG_RE = re.compile(r'[a-z0-9_-]*')
